@@ -539,6 +539,69 @@ fn eval_case_inner(line: &str) -> String {
                 format!("len={} zeros={} ff={} first={}", b.len(), zeros, ff, b.iter().take(4).map(|x| x.to_string()).collect::<Vec<_>>().join("."))
             }
         },
+        "UNW" => {
+            // UNW w h x y S|G: the pixel operation made from a destructor while the thread is unwinding from another
+            // panic, in a child process.  Out of bounds must still panic there (which then aborts the process) rather
+            // than touch anything; in bounds it works as anywhere else.
+            let exe = match std::env::current_exe() {
+                Ok(e) => e,
+                Err(_) => return "UNAVAILABLE".to_string(),
+            };
+            match std::process::Command::new(exe).arg("unw").args(&t[1..6]).env("FDX_MAIN_THREAD", "1").output() {
+                Err(_) => "UNAVAILABLE".to_string(),
+                Ok(o) => {
+                    use std::os::unix::process::ExitStatusExt;
+                    let out = String::from_utf8_lossy(&o.stdout).trim().to_string();
+                    if o.status.signal().is_some() && out.is_empty() {
+                        "ABORT".to_string()
+                    } else if o.status.code() == Some(101) {
+                        format!("OK {}", out)
+                    } else {
+                        format!("?? {:?} {}", o.status.code(), out)
+                    }
+                }
+            }
+        }
+        "PXI" => {
+            // PXI w h x y: one pixel switched on in a fresh page too large to print: which bytes of the pixel area are
+            // non-zero afterwards, what the pixel and its neighbours read
+            let (w, h, x, y): (u32, u32, u32, u32) = (num(t[1]), num(t[2]), num(t[3]), num(t[4]));
+            match guarded(|| {
+                let mut p = Page::new(PageId(7), w, h);
+                p.set_pixel(x, y, true);
+                p
+            }) {
+                None => "PANIC".to_string(),
+                Some(p) => {
+                    let b = p.as_bytes();
+                    let data = 4usize + w as usize * ((h as usize + 7) / 8);
+                    let set: Vec<String> = b.iter().enumerate().take(data.min(b.len())).skip(4).filter(|(_, v)| **v != 0).take(4).map(|(i, v)| format!("{}:{}", i, v)).collect();
+                    let g = |x: u32, y: u32| guarded(|| p.get_pixel(x, y)).map(|v| (v as u8).to_string()).unwrap_or_else(|| "P".to_string());
+                    let right = if x + 1 < w { g(x + 1, 0) } else { "-".to_string() };
+                    let above = if y > 0 { g(x, y - 1) } else { "-".to_string() };
+                    format!("len={} set=[{}] get={} nbr={}/{}", b.len(), set.join(","), g(x, y), right, above)
+                }
+            }
+        }
+        "PBX" => {
+            // PBX w h len fill: from_bytes over [7, 0x10, 0, 0] followed by len-4 bytes of one value (borrowed and owned)
+            let len: usize = num(t[3]);
+            let mut bs = vec![num::<u8>(t[4]); len];
+            for (i, v) in [7u8, 0x10, 0, 0].iter().enumerate() {
+                if i < len {
+                    bs[i] = *v;
+                }
+            }
+            let one = |r: Option<Result<Page<'_>, flipdot_core::PageError>>| match r {
+                None => "PANIC".to_string(),
+                Some(Ok(p)) => format!("OK {}", hex_of_bytes(p.as_bytes())),
+                Some(Err(flipdot_core::PageError::WrongPageLength { .. })) => "ER LEN".to_string(),
+                Some(Err(_)) => "ER ???".to_string(),
+            };
+            let a = one(guarded(|| Page::from_bytes(num(t[1]), num(t[2]), &bs[..])));
+            let b = one(guarded(|| Page::from_bytes(num(t[1]), num(t[2]), bs.clone())));
+            if a == b { a } else { format!("{} BUT-OWNED {}", a, b) }
+        }
         "PBO" => {
             // from_bytes over an OWNED buffer (Vec) instead of a borrowed slice
             let bs = pb_bytes(num(t[3]), num(t[4]));
